@@ -163,3 +163,41 @@ Theorem single_task_drops_id_refuted :
     = Some [(s_foo ++ [lbr] ++ s_g0 ++ [rbr], 0%nat); (s_foo ++ [lbr] ++ s_g1 ++ [rbr], 1%nat)] /\
   parse_names dec_nat1 [mkD s_foo None (Some s_g0) [] []] [s_foo] [] = Some [(s_foo, 0%nat)].
 Proof. vm_compute. split; reflexivity. Qed.
+
+(* ----------------------------------------------------------------- modules *)
+Lemma import_one_own is_pkg m p : fst (import_one is_pkg m p) = p.
+Proof.
+  unfold import_one. destruct (mc_get (modname is_pkg p) m) as [f|]; [|reflexivity].
+  destruct (eqbP f p) eqn:E; [|reflexivity]. apply eqbP_spec in E. exact E.
+Qed.
+
+(* C13: whatever names the paths derive - equal or not - the module object returned for a
+   task file holds the code of THAT file, and every path gets exactly one module *)
+Theorem import_all_own_file is_pkg : forall ps m p f,
+  In (p, f) (import_all is_pkg m ps) -> f = p.
+Proof.
+  induction ps as [|q r IH]; intros m p f H; simpl in H; [destruct H|].
+  pose proof (import_one_own is_pkg m q) as O.
+  destruct (import_one is_pkg m q) as [g m'] eqn:E. simpl in O, H.
+  destruct H as [H|H]; [inversion H; subst; reflexivity | eapply IH; eauto].
+Qed.
+
+Theorem import_all_paths is_pkg : forall ps m, map fst (import_all is_pkg m ps) = ps.
+Proof.
+  induction ps as [|q r IH]; intros m; simpl; [reflexivity|].
+  destruct (import_one is_pkg m q) as [g m']. simpl. f_equal. apply IH.
+Qed.
+
+(* F9, before the repair: a.b/task_m.py and a_b/task_m.py derive the same module name; the
+   second path got the module of the first (its functions were collected twice, the
+   functions of the second file never) *)
+Definition c_a_dot_b : comp := [97; 46; 98]%N.
+Definition c_a_us_b : comp := [97; 95; 98]%N.
+Definition c_task_m : comp := [116; 97; 115; 107; 95; 109]%N.
+Theorem equal_module_names_regression :
+  let p1 := [c_a_dot_b; c_task_m] in let p2 := [c_a_us_b; c_task_m] in
+  modname (fun _ => false) p1 = modname (fun _ => false) p2 /\
+  (let '(f1, m1) := import_one_old (fun _ => false) [] p1 in
+   fst (import_one_old (fun _ => false) m1 p2)) = p1 /\
+  map snd (import_all (fun _ => false) [] [p1; p2]) = [p1; p2].
+Proof. vm_compute. repeat split; reflexivity. Qed.
